@@ -15,7 +15,7 @@ META = dict(
                 "union of all acyclic orientations of the skeleton with the same v-structures (edge directed iff all members "
                 "agree). Because the oracle depends on the class only, equality for every member also shows that the CPDAG is "
                 "the same for all members of a class.",
-    bounds=dict(quick="DAGs p <= 4 (543 patterns, weighted + 0/1 int + 0/1 float); PDAGs p <= 3 all and p = 4 with <= 4 edges",
+    bounds=dict(quick="DAGs p <= 4 (543 patterns, weighted + 0/1 int + 0/1 float); PDAGs p <= 3 all and p = 4 with <= 4 edges; wide: all 4-node DAG patterns / 3-node PDAGs embedded at nodes 8,1,9,0 of a 12-node graph",
                 thorough="DAGs p = 5 (29,281 patterns); PDAGs p = 4 all (3,608)"),
     outside=["p > 5", "PDAGs on 5 nodes"],
     stubs=["numpy -> symnp"],
@@ -85,6 +85,12 @@ def obligations(tier):
                              "pdag_to_cpdag on every binary PDAG on %d nodes" % p, expect=('has extension',), weight=p))
     ob.append(Obligation('dag_p4', h_dag, I.dag_pair_cubes(4, 3), "dag_to_cpdag on every DAG pattern on 4 nodes",
                          expect=('checked',), weight=30))
+    ob.append(Obligation('dag_wide_p12', h_dag, I.embed_cubes(12, [11, 1, 9, 0], 3, dag=True),
+                         "dag_to_cpdag on every 4-node DAG pattern embedded at nodes 11, 1, 9, 0 of a 12-node graph (large / unordered labels)",
+                         expect=('checked',), weight=60))
+    ob.append(Obligation('pdag_wide_p12', h_pdag, I.embed_cubes(12, [11, 1, 9], 1),
+                         "pdag_to_cpdag on every 3-node binary PDAG embedded at nodes 11, 1, 9 of a 12-node graph",
+                         expect=('has extension',), weight=20))
     if tier == 'quick':
         ob.append(Obligation('pdag_p4_le4', h_pdag, I.pair_cubes(4, 2, dict(max_edges=4)),
                              "pdag_to_cpdag on binary PDAGs on 4 nodes with <= 4 edges",
